@@ -7,7 +7,6 @@ import (
 	"go/constant"
 	"go/token"
 	"go/types"
-	"math"
 	"sort"
 	"strings"
 
@@ -878,15 +877,8 @@ func (p *Prog) unguardedCallSites(fn *ssa.Function, params []*ssa.Parameter, una
 			guarded := false
 			if unary {
 				for _, a := range args {
-					for _, f := range fs {
-						bo, ok := f.Cond.(*ssa.BinOp)
-						if !ok || !sameValue(bo.X, a) {
-							continue
-						}
-						k, ok := constInt(bo.Y)
-						if ok && k == math.MinInt64 && ((bo.Op == token.EQL && !f.Truth) || (bo.Op == token.NEQ && f.Truth)) {
-							guarded = true
-						}
+					if minIntExcluded(fs, a) {
+						guarded = true
 					}
 				}
 			} else {
@@ -1239,7 +1231,7 @@ func init() {
 	register(ruleFinite, ruleDiv, ruleOvf, ruleF2I, ruleListIndex)
 	addProp(&PropSpec{
 		ID:          "C13",
-		Rules:       []string{"R-DIV", "R-OVF", "R-FINITE", "R-LISTINDEX", "R-TOWER", "R-F2I", "R-FOLD", "R-NUMLIT", "R-INPUT-RO", "R-PREC", "R-ERRFIRST", "R-ARITHOP", "R-RESUPPRESS", "R-OPERANDORDER", "R-SCRATCHSTATUS", "R-CMPNORM"},
+		Rules:       []string{"R-DIV", "R-OVF", "R-FINITE", "R-LISTINDEX", "R-TOWER", "R-F2I", "R-FOLD", "R-NUMLIT", "R-INPUT-RO", "R-PREC", "R-ERRFIRST", "R-ARITHOP", "R-RESUPPRESS", "R-OPERANDORDER", "R-SCRATCHSTATUS", "R-CMPNORM", "R-UNWRAPTHREAD"},
 		Explanation: "'Exact or loud' as guard discipline on SSA instructions: every division on item values is zero-tested, every raw int64 operation on item values is reachable only behind an overflow test on the same operands (falling back to the double operation), every computed double is finiteness-checked before it can become an item, every operand sequence is length-tested before its single element is read, and the three numeric representations are handled together.",
 		Decided: []string{"R-DIV: zero tests dominate / and %, the zero branch is a suppressible error", "R-OVF: raw integer arithmetic only behind an overflow test (binary) or a MinInt64 test (unary)",
 			"R-FINITE: no Inf/NaN leaves a computing function", "R-LISTINDEX: singleton test before operand[0], failing branch suppressible", "R-TOWER: numeric representations are siblings"},
@@ -1269,7 +1261,14 @@ func minIntExcluded(fs []Fact, v ssa.Value) bool {
 		if !ok || k != minInt {
 			continue
 		}
-		if (bo.Op == token.EQL && !f.Truth) || (bo.Op == token.NEQ && f.Truth) || (bo.Op == token.GTR && f.Truth && sameValue(bo.X, v)) {
+		vLeft := sameValue(bo.X, v)
+		switch {
+		case bo.Op == token.EQL && !f.Truth, bo.Op == token.NEQ && f.Truth:
+			return true
+		// v > MinInt64, written either way round and as the negation of ≤
+		case bo.Op == token.GTR && f.Truth && vLeft, bo.Op == token.LSS && f.Truth && !vLeft:
+			return true
+		case bo.Op == token.LEQ && !f.Truth && vLeft, bo.Op == token.GEQ && !f.Truth && !vLeft:
 			return true
 		}
 	}
